@@ -358,6 +358,7 @@ fn main() {
 
             if !lint.no_output {
                 parser.sort_diagnostics(&mut diags);
+                parser.dedup_diagnostics(&mut diags);
 
                 // Output as JSON
                 if lint.json {
